@@ -15,6 +15,7 @@ Compound values: Obj(type, fields), Arr(items), ('ptr', loc, path), ('opt', pres
   Str(parts), ('fnref', id), ('lambda', id), ('iter', table, key), ('end', table), ('table', var id)
 """
 from fractions import Fraction
+import os
 import re
 from .facts import strip_cvref, is_ref
 from .frontend import AnalysisBroken
@@ -59,6 +60,20 @@ class Arr:
 
     def __repr__(self):
         return "Arr%r" % (self.items,)
+
+
+_COVERAGE = None
+if os.environ.get("VF_COVERAGE_DIR"):
+    import atexit
+    _COVERAGE = set()
+
+    def _dump_coverage():
+        try:
+            with open(os.path.join(os.environ["VF_COVERAGE_DIR"], "ev-%d.txt" % os.getpid()), "w") as fh:
+                fh.write("\n".join(sorted(_COVERAGE)))
+        except OSError:
+            pass
+    atexit.register(_dump_coverage)
 
 
 class Closure:
@@ -407,6 +422,8 @@ class Evaluator:
 
     # ------------------------------------------------------------------ calls
     def _invoke(self, f, this_lv, args):
+        if _COVERAGE is not None and "body" in f:
+            _COVERAGE.add(f.get("qname", f["name"]))
         if self.depth > self.max_depth:
             raise Inconclusive("call depth exceeded at " + f["name"])
         hk = self.hooks.get(f.get("qname", f["name"]))
@@ -1865,11 +1882,13 @@ def assume(t, cond, truth):
             return b_or(assume(t[1], cond, truth), assume(t[2], cond, truth))
         if t[0] in ("c", "leaf", "enum", "pi"):
             return t
-        return tuple(assume(x, cond, truth) if isinstance(x, (tuple, Obj, Arr)) else x for x in t)
+        return tuple(assume(x, cond, truth) if isinstance(x, (tuple, Obj, Arr, Str)) else x for x in t)
     if isinstance(t, Obj):
         return Obj(t.type, {k: assume(v, cond, truth) for k, v in t.f.items()})
     if isinstance(t, Arr):
         return Arr([assume(v, cond, truth) for v in t.items])
+    if isinstance(t, Str):
+        return Str([assume(p, cond, truth) if isinstance(p, (tuple, Obj, Arr, Str)) else p for p in t.parts])
     return t
 
 
